@@ -12,6 +12,8 @@ use std::str::FromStr;
 
 thread_local! {
     pub static LAST_PANIC: RefCell<Option<String>> = const { RefCell::new(None) };
+    /// panics of this thread are expected data (a probe thread): not reported as harness panics
+    pub static QUIET_THREAD: std::cell::Cell<bool> = const { std::cell::Cell::new(false) };
 }
 
 pub fn install_panic_hook() {
@@ -24,7 +26,7 @@ pub fn install_panic_hook() {
         } else {
             "?".to_string()
         };
-        if crate::IN_CALL.load(std::sync::atomic::Ordering::Relaxed) == 0 {
+        if crate::IN_CALL.load(std::sync::atomic::Ordering::Relaxed) == 0 && !QUIET_THREAD.with(|q| q.get()) {
             // not inside a guarded call into the crate: the harness itself gives up (a tool error, never a verdict)
             eprintln!("HARNESS-PANIC {loc}: {msg}");
             if std::env::var("VERIF_BACKTRACE").is_ok() {
@@ -214,7 +216,9 @@ pub fn iterate_pub<D: TestDriver<Error = DrvErr>>(
     it_id: usize,
     out: &mut Vec<J>,
 ) {
-    verif::set_seed_override(Some(cfg.rng_seed));
+    // (C17: every other run of its workload takes the crate's ordinary path - a seed from the operating system; the draws are
+    // logged either way, and whether `resetRandom` replays them is a predicate on that log alone)
+    verif::set_seed_override(if crate::OS_ENTROPY.load(std::sync::atomic::Ordering::Relaxed) { None } else { Some(cfg.rng_seed) });
     let _ = verif::take_rng_log();
     // the deprecated alias is part of the public API: every fifth run enters through it
     #[allow(deprecated)]
